@@ -2,6 +2,7 @@
 """C14 - token initialisation, re-initialisation and isolation between tokens."""
 import sys, os, subprocess; sys.path.insert(0, os.path.join(os.path.dirname(os.path.abspath(__file__)), '..', 'vlib'))
 from harness import main, SAN_ENV
+from p11client import mkconf, Died, Hang
 from walkcheck import run_walks
 from model import Tok
 
@@ -253,10 +254,85 @@ def reinit_two_process(ctx, backend):
         for x in (A, B):
             if x is not None: x.kill()
 
+def token_census(x, ck):
+    """[(label, flags & INITIALIZED, rv of C_GetTokenInfo)] of every slot with a token present"""
+    out = []; x.call('C_GetSlotList', null=True)
+    for sl in x.call('C_GetSlotList', count=64)['slots']:
+        ti = x.call('C_GetTokenInfo', slot=sl)
+        if ti['rv'] != 0: out.append(('?', None, ti['rvname'])); continue
+        if ti['flags'] & ck.CKF_TOKEN_INITIALIZED: out.append((bytes.fromhex(ti['label']).rstrip(b' ').decode('latin-1'), True, 'CKR_OK'))
+    return sorted(out)
+
+def inittoken_faults(ctx, backend):
+    """tokens come from successful C_InitToken calls only: C_InitToken on the free slot with its k-th file-system operation failing (every k); when the call FAILS, a restart must
+    find exactly the tokens that existed before (every slot answering C_GetTokenInfo) and the free slot must still take a token; when it returns CKR_OK the new token must be there"""
+    import shutil
+    ck = ctx.ck; SO = b'so-pin-14f'; gold = ctx.dir('c14f-gold'); x = ctx.new_exec('asan', gold, backend)
+    try:
+        assert x.call('C_Initialize', locking='os')['rv'] == 0; slot = x.call('C_GetSlotList', count=8)['slots'][-1]
+        assert x.call('C_InitToken', slot=slot, pin=SO.hex(), label=b'existing'.hex())['rv'] == 0; x.call('C_Finalize'); x.close(); x = None
+        def fresh():
+            d = ctx.dir('c14f-run'); shutil.rmtree(d); shutil.copytree(gold, d); mkconf(d, backend); return d, ctx.new_exec('asan', d, backend, reuse_dir=True)
+        d, x = fresh(); assert x.call('C_Initialize', locking='os')['rv'] == 0; x.call('C_GetSlotList', null=True); free = x.call('C_GetSlotList', count=8)['slots'][-1]
+        x.call('fs', mode='count', root=d + '/tokens'); r0 = x.call('C_InitToken', slot=free, pin=SO.hex(), label=b'new-token'.hex()); N = x.call('fs', mode='status')['nops']; ops = {n: (kind, ('db' + os.path.basename(path)[len('sqlite3.db'):]) if os.path.basename(path).startswith('sqlite3.db') else os.path.basename(path) if '.' in os.path.basename(path) or os.path.basename(path) == 'generation' else 'directory') for n, kind, path in x.call('fs', mode='trace')['trace']}; x.call('fs', mode='off'); x.close(); x = None
+        ctx.observe('fs operations of a fresh C_InitToken (fault-free run)', {'backend': backend, 'n': N, 'rv': r0['rvname']})
+        for k in range(1, min(N, ctx.q(80, 400)) + 1):
+            for errno in ctx.q((5,), (5, 28, 24)):
+                d, x = fresh(); assert x.call('C_Initialize', locking='os')['rv'] == 0; x.call('C_GetSlotList', null=True); free = x.call('C_GetSlotList', count=8)['slots'][-1]
+                x.call('fs', mode='fail', root=d + '/tokens', k=k, errno=errno)
+                try: r = x.call('C_InitToken', slot=free, pin=SO.hex(), label=b'new-token'.hex())
+                except Died as e: ctx.observe('side:C17 library terminated the host under an FS fault', {'kind': e.kind(), 'fn': e.fn}); ctx.inconc(f'executor died in C_InitToken under fault k={k}'); x = None; continue
+                inj = x.call('fs', mode='status').get('injected'); x.call('fs', mode='off'); op = '%s@%s' % ops.get(k, ('?', '?')); w = dict(backend=backend, k=k, op=op, errno=errno, rv=r['rvname'])
+                ctx.case(('inittoken-fault', backend, k, errno, r['rv'] == 0), nontrivial=bool(inj), sample={'inittoken_under_fault': w} if k == 1 else None)
+                if r['rv'] != 0:
+                    # the free slot still takes a token (the failure is not a trap) ...
+                    x.call('C_GetSlotList', null=True); fr = [sl for sl in x.call('C_GetSlotList', count=16)['slots'] if x.call('C_GetTokenInfo', slot=sl).get('flags', ck.CKF_TOKEN_INITIALIZED) & ck.CKF_TOKEN_INITIALIZED == 0]
+                    r2 = x.call('C_InitToken', slot=fr[-1], pin=SO.hex(), label=b'retry'.hex()) if fr else {'rv': -1, 'rvname': 'no-free-slot'}
+                    if r2['rv'] != 0: ctx.violation(f'C_InitToken|{backend},fail:{op},failed|free-slot-no-longer-takes-a-token', 'after a C_InitToken that failed under a file-system fault the free slot cannot be initialised any more', dict(w, retry=r2['rvname']))
+                    # ... and after a restart exactly the tokens that successful calls created exist
+                    x.call('C_Finalize'); x.close(); x = ctx.new_exec('asan', d, backend, reuse_dir=True); assert x.call('C_Initialize', locking='os')['rv'] == 0
+                    cen = token_census(x, ck); want = sorted([('existing', True, 'CKR_OK')] + ([('retry', True, 'CKR_OK')] if r2['rv'] == 0 else []))
+                    if cen != want: ctx.violation(f'C_InitToken|{backend},fail:{op},failed|tokens-after-restart-differ', 'after a C_InitToken that FAILED under a file-system fault, a restart finds other tokens than the successful calls created (a half-made token appears, or a slot does not answer C_GetTokenInfo)', dict(w, found=cen, expected=want))
+                else:
+                    x.call('C_Finalize'); x.close(); x = ctx.new_exec('asan', d, backend, reuse_dir=True); assert x.call('C_Initialize', locking='os')['rv'] == 0
+                    cen = token_census(x, ck)
+                    if ('new-token', True, 'CKR_OK') not in cen or len(cen) != 2: ctx.observe('C_InitToken returned CKR_OK under a file-system fault but the restart does not find exactly the two tokens (durability under faults is quantified in C05; not judged here)', dict(w, found=cen))
+                x.call('C_Finalize'); x.close(); x = None
+    except AssertionError as e: ctx.inconc(f'C_InitToken fault lane could not run ({backend}): {e!r}')
+    except Died as e: ctx.observe('side:C17 library terminated the host', {'kind': e.kind(), 'fn': e.fn}); ctx.inconc(f'executor died in the C_InitToken fault lane ({backend})')
+    except Hang: ctx.inconc(f'hang in the C_InitToken fault lane ({backend})')
+    finally:
+        if x is not None: x.kill()
+
+def inittoken_races(ctx, backend):
+    """two threads call C_InitToken on the ONE free slot at the same moment (locking enabled): executed one at a time, the first creates the token and the second re-initialises it
+    (same SO PIN) or is refused (another SO PIN); either way each round adds exactly ONE token, which a restart confirms"""
+    ck = ctx.ck; d = ctx.dir('c14r'); x = ctx.new_exec('asan', d, backend)
+    try:
+        assert x.call('C_Initialize', locking='os')['rv'] == 0; rounds = ctx.q(5, 16); made = 0
+        for rnd_ in range(rounds):
+            x.call('C_GetSlotList', null=True); free = x.call('C_GetSlotList', count=64)['slots'][-1]; same = rnd_ % 2 == 0
+            pins = [b'so-pin-race-a', b'so-pin-race-a' if same else b'so-pin-race-b']
+            scripts = [[{'fn': 'C_InitToken', 'slot': free, 'pin': pins[t].hex(), 'label': (b'race-%d-%d' % (rnd_, t)).hex()}] for t in range(2)]
+            r = x.raw({'fn': 'threads', 'scripts': scripts, 'timeout': 120}); rvs = [ck.rv(res[0]['rv']) for res in r['results']]; oks = rvs.count('CKR_OK')
+            ctx.case(('inittoken-race', backend, same, tuple(sorted(rvs))), sample={'inittoken_race': rvs} if rnd_ == 0 else None)
+            if oks == 0: ctx.violation(f'C_InitToken|{backend},two-threads-one-free-slot|both-failed', 'two simultaneous C_InitToken calls on the free slot both failed', {'rvs': rvs, 'same_pin': same})
+            if oks == 2 and not same: ctx.violation(f'C_InitToken|{backend},two-threads-one-free-slot,different-so-pins|both-succeeded', 'two simultaneous C_InitToken calls with DIFFERENT SO PINs on the one free slot both returned CKR_OK (executed one at a time the second is a re-initialisation and needs the first one\'s SO PIN)', {'rvs': rvs})
+            made += 1 if oks else 0
+        x.call('C_Finalize'); assert x.call('C_Initialize', locking='os')['rv'] == 0
+        cen = token_census(x, ck)
+        if len(cen) != made or any(c[2] != 'CKR_OK' for c in cen): ctx.violation(f'C_InitToken|{backend},two-threads-one-free-slot|token-count-after-restart-{"more" if len(cen) > made else "less"}', 'after rounds of two simultaneous C_InitToken calls on the free slot a re-initialisation of the library finds another number of tokens than rounds that created one', {'rounds_that_created_a_token': made, 'tokens_found': len(cen), 'labels': [c[0] for c in cen][:20]})
+        x.call('C_Finalize')
+    except AssertionError as e: ctx.inconc(f'C_InitToken race lane could not run ({backend}): {e!r}')
+    except Died as e: ctx.observe('side:C17/C18 library terminated the host in racing C_InitToken', {'kind': e.kind(), 'fn': e.fn}); ctx.inconc(f'executor died in the C_InitToken race lane ({backend})')
+    except Hang: ctx.inconc(f'hang in the C_InitToken race lane ({backend})')
+    finally: x.kill() if x.p.poll() is None else None
+
 def run(ctx):
     ctx.need('asan')
     for be in ('file', 'db'): reinit_two_process(ctx, be)
     for be in ('file', 'db'): noninterference(ctx, be)
+    for be in ('file', 'db'): inittoken_faults(ctx, be); inittoken_races(ctx, be)
     ctx.rule = ('histories over 2-4 tokens: C_InitToken (fresh on the free slot / re-init, right / wrong SO PIN, with / without sessions), softhsm2-util --init-token / --delete-token of the same build as another actor, '
                 'object and PIN operations, C_Finalize/C_Initialize and new-process restarts (40 % of them after stray non-token entries were put into the token directory); after every call every OTHER token is probed (session states, visible object set, an attribute) against the model, '
                 'after every restart every token must be found again under slot = last 8 hex digits of the serial & 0x7fffffff with label/flags unchanged, and quiescent audits log in with both PINs and compare all objects; '
